@@ -352,6 +352,12 @@ class Engine:
                     return None
                 C = frozenset(c for c in v[2] if sign_of(c) in S) if v[2] is not None else None
                 out[l] = num(S, C, vn)
+        if isinstance(vn, tuple) and vn and vn[0] == "e":
+            prev = env.get(("vnfact", vn))
+            S = (prev[1] & allowed) if prev is not None and prev[0] == "n" else allowed
+            if not S:
+                return None
+            out[("vnfact", vn)] = num(frozenset(S), None, vn)      # remembered for later calls that denote the same number
         return out
 
     def _edge_envs(self, fn, env, t):
@@ -564,6 +570,17 @@ class Engine:
                 return a0 if a0 and a0[0] == "opt" else ("unk", dty)
         if last == "default" and callee.startswith("core::default::Default") and dty in UNSIGNED + SIGNED:
             return const_num(0.0 if dty in ("f64", "f32") else 0, vn)
+        if last in ("len", "count", "size") and len(t["args"]) == 1 and dty in UNSIGNED:
+            # a pure size observer of an immutable receiver: two calls on the same receiver expression denote the same number (`if s.size() == 0 { return } .. / s.size()`);
+            # anything reachable through `&mut` is opaque in mir.expr, so a receiver that may have been mutated in between gets a fresh value number
+            e = mir.expr(fn, t["args"][0])
+            if not mir.expr_has_opaque(e) and mir.expr_has_input(e):
+                vn = ("e", last, repr(e))
+            S = NONNEG
+            fact = env.get(("vnfact", vn))
+            if fact is not None and fact[0] == "n":
+                S = frozenset(S & fact[1]) or S
+            return num(S, None, vn)
         if last == "len" or last == "count":
             return num(NONNEG, None, vn)
         # workspace callee with a body: context-insensitive summary
